@@ -231,6 +231,19 @@ def CbBehaviour.good : CbBehaviour → Bool
   | .returnsVars _ => true
   | _ => false
 
+/-- What one element of a callback's (iterable) result is: a Var (instances of subclasses included),
+    a list / tuple / other container *of Vars* (not a Var: nothing is spliced in), or anything else. -/
+inductive ElemKind
+  | var
+  | seqOfVars
+  | nonVar
+deriving DecidableEq, Repr, Inhabited
+
+/-- The behaviour of a callback returning an iterable with these elements: every element must be a
+    Var — a nested list of Vars is a non-Var element like any other. -/
+def behaviourOfElems (es : List ElemKind) : CbBehaviour :=
+  if es.all (fun e => e == .var) then .returnsVars es.length else .hasNonVar es.length
+
 /-- One callback invocation. -/
 structure Event where
   cb : Nat                         -- identity of the callback object
